@@ -1,4 +1,5 @@
 import LanceModel.C19.ScanLemmas
+import LanceModel.C19.Pages
 /-!
 # C19 — property theorems
 
@@ -62,6 +63,37 @@ theorem two_valued_bracket (q : IExpr) (r : Row) :
     (q.eval3 r = some true → q.sel2 r = true) ∧ (q.sel2 r = true → q.eval3 r ≠ some false) :=
   sel2_bracket q r
 
+/-! ## Part 2b: the paged BTree -/
+
+/-- **no page with a matching key is pruned** (`BTreeLookup::{pages_eq, pages_in, pages_between, pages_null}` over the
+    (min, max, null_count) statistics): for every sargable query, every sorted layout of page statistics, every page
+    whose statistics bound a key the query hits -/
+theorem btree_page_selection_complete (ps : List PageStat) (hs : SortedLayout ps) (p : PageStat) (hp : p ∈ ps)
+    (k : Cell) (hk : Holds p k) (q : SQ) (hq : q.hits k = true) : p.no ∈ pagesFor ps q :=
+  pagesFor_complete ps hs p hp k hk q hq
+
+/-- **the paged BTree search is the flat search** (`btree_pages_complete`, Pages.lean): for every split of the sorted
+    entry list into non-empty consecutive pages — any page size, any page numbering — searching only the selected pages
+    returns exactly the addresses of the entries the query hits.  This is what makes `leaf_search_exact` (stated on the
+    entry set `Idx.search`) hold for the real paged BTree. -/
+theorem btree_paged_search_exact (pages : List (Nat × List (Cell × Nat))) (h : ChunksSorted pages) (q : SQ) (a : Nat) :
+    a ∈ pagedSearch pages q ↔ a ∈ ((pages.flatMap (·.2)).filter (fun e => q.hits e.1)).map (·.2) :=
+  btree_pages_complete pages h q a
+
+/-- pages of two entries over keys NULL NULL 1 2 2 2 3 4 (duplicates straddle page boundaries, one all-NULL page) -/
+def exPages : List (Nat × List (Cell × Nat)) :=
+  [(0, [(none, 10), (none, 11)]), (1, [(some 1, 12), (some 2, 13)]), (2, [(some 2, 14), (some 2, 15)]),
+   (3, [(some 3, 16), (some 4, 17)])]
+
+example : ChunksSorted exPages := by
+  unfold ChunksSorted exPages KeyLe
+  decide
+
+example : pagedSearch exPages (.equals 2) = [13, 14, 15] ∧ pagedSearch exPages .isNull = [10, 11] ∧
+    pagedSearch exPages (.range (.excl 2) (.excl 4)) = [16] ∧
+    pagesFor (exPages.map (fun p => pageStat p.1 p.2)) (.equals 2) = [1, 2] ∧
+    pagesFor (exPages.map (fun p => pageStat p.1 p.2)) (.range (.excl 4) .unb) = [3] := by decide
+
 /-! ## Part 3: indexed scan versus plain scan -/
 
 /-- the full statement: for every table state with faithful indices and every filter, the indexed scan succeeds and
@@ -69,12 +101,15 @@ theorem two_valued_bracket (q : IExpr) (r : Row) :
 def C19_full : Prop :=
   ∀ (s : St) (e : Expr), Inv s → scanIndexed s e = .ok (scanPlain s e)
 
-/-- the decidable hypothesis: on every live row that the scan reads through the index, no sub-query under a NOT
-    evaluates to NULL -/
+/-- the decidable hypothesis, polarity-aware (`Safe`, PlanLemmas.lean): on every live row that the scan reads through
+    the index, no leaf of the index query that sits under an ODD number of NOTs is NULL on the row — unless a FALSE
+    conjunct / TRUE disjunct next to it decides the sub-expression anyway.  NOT NOT over NULL, `IS NOT NULL`, and
+    positive leaves over NULL cells are all inside the hypothesis; it is weaker than "nothing negated is NULL"
+    (`nullSafe_imp_safe`). -/
 def SafeOn (s : St) (e : Expr) : Bool :=
   match visitNode s.ix e with
   | none => true
-  | some x => s.rows.all (fun p => !(covered s x.sq).contains (fragOf p.1) || NullSafe x.sq p.2)
+  | some x => s.rows.all (fun p => !(covered s x.sq).contains (fragOf p.1) || Safe true x.sq p.2)
 
 theorem indexed_eq_scan_partial (s : St) (e : Expr) (hinv : Inv s) (hsafe : SafeOn s e = true) :
     scanIndexed s e = .ok (scanPlain s e) := by
@@ -103,7 +138,7 @@ theorem indexed_eq_scan_cols_partial (s : St) (e : Expr) (hinv : Inv s)
     simp only [List.all_eq_true, Bool.or_eq_true, Bool.not_eq_true']
     intro p hp
     right
-    exact nullSafe_of_cols x.sq false p.2 (fun c hc => h x hv c hc p hp)
+    exact (nullSafe_imp_safe x.sq p.2 (nullSafe_of_cols x.sq false p.2 (fun c hc => h x hv c hc p hp))).1
 
 /-- **without any hypothesis**: the indexed scan never fails, returns only live rows, returns every row on which the
     filter is TRUE, and never returns a row on which the filter is FALSE (the only possible difference with the plain
@@ -199,6 +234,12 @@ example : ((run (create exRows) exHistory).map (fun s => s.rows.map (·.1))) =
 example : SafeOn witness (.and (.between 0 2 5) (.notNull 1)) = true ∧
     (applyScalarIndices witness.ix (.and (.between 0 2 5) (.notNull 1))).sq =
       some (.and (.query 0 (.range (.incl 2) (.incl 5))) (.not (.query 1 .isNull))) := by decide
+
+/-- NOT NOT over a NULL-valued leaf is inside the hypothesis (even number of NOTs), and so is a negated leaf next to a
+    FALSE conjunct: `NOT (c0 = 1 AND c1 = 9)` is decided by `c1 = 9` being FALSE on every row although c0 is NULL on row 3 -/
+example : SafeOn witness (.not (.not (.cmp .eq 0 (.lit 1)))) = true ∧
+    SafeOn witness (.not (.and (.cmp .eq 0 (.lit 1)) (.cmp .eq 1 (.lit 9)))) = true ∧
+    (witness.rows.filter (fun p => (cellAt p.2 0).isNone)).length = 1 := by decide
 
 /-- … and fails exactly on the witness filter -/
 example : SafeOn witness (.cmp .ne 0 (.lit 5)) = false := by decide
